@@ -33,6 +33,16 @@ REWRITES = [
      r"etl::declval<etl::conditional_t<\(I < 0xffffffff\)"),
 ]
 
+# Compiler selection: the lowering front end is clang 14, the pinned baseline is built with GCC 12.  Where tetl chooses between a
+# compiler builtin (clang) and its own portable code (GCC), the overlay selects the GCC branch, i.e. the code the baseline runs.
+# (file glob, regex, replacement); zero hits means there is no compiler switch left to select (logged).
+import glob
+GCC_BRANCH = [
+    ("etl/_cstring/*.hpp", r"#if defined\(__clang__\)", "#if 0 /* overlay: GCC branch */"),
+    ("etl/_cwchar/*.hpp", r"#if defined\(__clang__\)", "#if 0 /* overlay: GCC branch */"),
+    ("etl/_cmath/signbit.hpp", r"and not defined\(TETL_COMPILER_CLANG\)", "and not 0 /* overlay: GCC branch */"),
+]
+
 # P0848 emulation for drivers that instantiate these with a non-trivially-destructible type
 NT = [
     ("etl/_variant/variant.hpp", r"\n[ \t]*~variant\(\)\s*requires\(\.\.\. and is_trivially_destructible_v<Ts>\)\s*= default;"),
@@ -65,6 +75,15 @@ def main():
         t = re.sub(old, lambda m: new, t)
         open(p, "w").write(t)
         log.append("rewrote " + f)
+    for pat_glob, old, new in GCC_BRANCH:
+        hits = 0
+        for p in sorted(glob.glob(os.path.join(dst, pat_glob))):
+            t = open(p).read()
+            n = len(re.findall(old, t))
+            if n:
+                open(p, "w").write(re.sub(old, lambda m: new, t))
+                hits += n
+        log.append("GCC branch selected at %d site(s) in %s" % (hits, pat_glob))
     if nt:
         for f, pat in NT:
             p = os.path.join(dst, f)
